@@ -103,6 +103,27 @@ def wiring(ctx):
                live_a.get("orientations_prev") is R.A0, "orientations_prev must be self.orientations[-1] (unchanged during the update by C01)", mloc)
         ng = a.get("n_grains")
         ctx.ob("C09.wiring", f"step {k}: grain count", isinstance(ng, IntSym) and ng.value == N and ng.expr == R.mineral.attrs["n_grains"].expr, repr(ng), mloc)
+    # the same reference in every accepted regime, whether the regime comes from the mineral's field or from the callback (and whatever the
+    # field holds while a callback is in charge)
+    from ..values import Native
+    from .common import enum
+    scenarios = [(f"regime field {rg}", {"regime": rg}) for rg in ("frictional_yielding", "matrix_diffusion", "min_viscosity", "max_viscosity")]
+    for field, cb in (("min_viscosity", "matrix_dislocation"), ("max_viscosity", "frictional_yielding"), ("matrix_dislocation", "min_viscosity"), ("matrix_diffusion", "matrix_dislocation")):
+        scenarios.append((f"regime field {field}, callback reports {cb}",
+                          {"regime": field, "get_regime": Native("get_regime", lambda I_, t, x, cb=cb: enum(I_, "pydrex.core.DeformationRegime", cb))}))
+    for label, kw in scenarios:
+        Rs = driver.run_update(ctx, N=N, nsteps=2, **kw)
+        if Rs.exc is not None:
+            ctx.ob("C09.wiring", f"{label}: update", False, f"raises {Rs.exc!r}", mloc)
+            continue
+        okn = len(Rs.gbs_calls) == Rs.steps
+        okr = all(len(live) > 3 and live[3] is Rs.A0 for _a, _k, live in Rs.gbs_calls) if Rs.gbs_calls else False
+        if Rs.gbs_calls and not okr:
+            # keyword call
+            okr = all((dict(zip(["orientations", "fractions", "gbs_threshold", "orientations_prev", "n_grains"], live)) | k_).get("orientations_prev") is Rs.A0
+                      for _a, k_, live in Rs.gbs_calls)
+        ctx.ob("C09.wiring", f"{label}: one sliding step per solver step, reference = snapshot at the start of the update", okn and okr,
+               f"{len(Rs.gbs_calls)} calls for {Rs.steps} steps; reference is the start-of-update snapshot: {okr}", mloc)
     # write-back: final solver.y[9:] == hstack(gbs orientations, gbs fractions) of the last step
     yfin = R.solver.attrs["y"]
     k = R.steps
